@@ -300,3 +300,34 @@ def record_width(ctx: Ctx) -> None:
                         ctx.bad(R, f, body[0], f'the `{test}` branch opens the row with {cnt} cells, not with as many as the index has depths: the rest of the row is shifted '
                                 'against the data rows, so labels and values no longer line up on import', key=key)
     ctx.require(n >= 4, 'row-opening branches of _to_str_records')
+
+
+# names that existed in NumPy 1.x and are gone from the NumPy 2.x this checkout is pinned to (release notes of 2.0 - 2.5: expired deprecations and removals)
+NUMPY_REMOVED = {
+    'in1d': 'np.isin', 'product': 'np.prod', 'cumproduct': 'np.cumprod', 'sometrue': 'np.any', 'alltrue': 'np.all', 'row_stack': 'np.vstack',
+    'float_': 'np.float64', 'complex_': 'np.complex128', 'unicode_': 'np.str_', 'string_': 'np.bytes_', 'NaN': 'np.nan', 'Inf': 'np.inf', 'Infinity': 'np.inf',
+    'PINF': 'np.inf', 'NINF': '-np.inf', 'round_': 'np.round', 'asfarray': 'np.asarray(dtype=float)', 'find_common_type': 'np.result_type', 'cast': 'np.asarray',
+    'obj2sctype': None, 'issubclass_': None, 'msort': 'np.sort(axis=0)', 'trapz': 'np.trapezoid', 'issctype': None, 'sctype2char': None, 'maximum_sctype': None,
+    'set_string_function': None, 'source': None, 'who': None, 'safe_eval': None, 'mat': 'np.asmatrix', 'Inf': 'np.inf', 'longfloat': 'np.longdouble',
+    'singlecomplex': 'np.complex64', 'cfloat': 'np.complex128', 'clongfloat': 'np.clongdouble', 'longcomplex': 'np.clongdouble', 'nbytes': None, 'byte_bounds': None,
+    'compare_chararrays': None, 'deprecate': None, 'disp': None, 'fastCopyAndTranspose': None, 'get_array_wrap': None, 'recfromcsv': None, 'recfromtxt': None,
+}
+
+
+def numpy_removed_api(ctx: Ctx) -> None:
+    R = 'I.numpy-removed-api'
+    ctx.rule(R, 'configured generic check: no attribute of the `np` / `numpy` module that was removed from the NumPy 2.x line this checkout runs on (np.in1d, np.product, '
+             'np.float_, ...) is referenced in core — such a reference raises AttributeError on the path that reaches it, whatever the inputs', floor=1)
+    n = 0
+    for m in ctx.prog.modules.values():
+        for a in ast.walk(m.tree):
+            if isinstance(a, ast.Attribute) and isinstance(a.value, ast.Name) and a.value.id in ('np', 'numpy'):
+                n += 1
+                if a.attr in NUMPY_REMOVED:
+                    alt = NUMPY_REMOVED[a.attr]
+                    ctx.bad(R, f'{m.short}.<module>', a, f'`np.{a.attr}` does not exist in the pinned NumPy: every call that reaches it raises AttributeError'
+                            + (f' (use {alt})' if alt else ''), key=f'{m.short}:np.{a.attr}', file=m.relpath)
+    fixture = ast.parse('func = np.in1d if array.ndim == 1 else np.isin')
+    if not any(isinstance(a, ast.Attribute) and a.attr in NUMPY_REMOVED for a in ast.walk(fixture)):
+        raise AnalysisError('positive fixture of I.numpy-removed-api no longer matches')
+    ctx.ok(R, 'core.<all np attributes>', None, f'{n} references to attributes of np scanned; none is in the removed-API table (fixture matched)', key='scan', file='static_frame/core')
